@@ -136,6 +136,14 @@ def run_child(fn: Callable[..., Any], *args: Any, wall_s: float | None = None, m
         code = 0
         try:
             os.close(r)
+            # The collector's trigger point depends on how many objects the *worker* happened to
+            # allocate before the fork; finalizers it runs are Python code and would show up as
+            # steps of the deterministic clock.  Children are short-lived: collect once, then
+            # keep the collector off so that step counts are a pure function of the case.
+            import gc
+
+            gc.collect()
+            gc.disable()
             if mem_bytes:
                 import resource
 
@@ -203,14 +211,14 @@ class Capture:
         import logging
 
         self.records: list[tuple[str, int, str]] = []
-        self._seen: set[int] = set()
+        self._seen: dict[int, Any] = {}  # id -> record; keeps records alive so ids are never reused
         outer = self
 
         class _H(logging.Handler):
             def emit(self, record: logging.LogRecord) -> None:
                 if id(record) in outer._seen:
                     return
-                outer._seen.add(id(record))
+                outer._seen[id(record)] = record
                 try:
                     msg = record.getMessage()
                 except Exception:
